@@ -72,10 +72,14 @@ def run(ctx):
         c["nodes"][0]["collide"] = collide
         c["qtype"], c["qclass"], c["flags"] = 1, 1, 0x0100
         cases.append(c)
+    n_pair = 16 if T else 5
+    for _ in range(n_pair):
+        cases.append(hc.pair_case(rng, len(cases)))
     for _ in range(400 if T else 80):
         cases.append(hc.composite_case(rng, len(cases), PROP))
     log("%d cases: %d from %d TLC behaviours (%d query-shape behaviours exhaustive, %d infeasible for the real plugins), "
-        "%d composite" % (len(cases), n_scripted, len(behs), n_mal, infeasible, len(cases) - n_scripted - 2))
+        "%d interleaved-client pairs on a stale lazy-cache entry, %d composite" % (
+            len(cases), n_scripted, len(behs), n_mal, infeasible, n_pair, len(cases) - n_scripted - 2 - n_pair))
 
     binary = vlib.go_build(ctx, "drv_handler")
     st = hc.run_cases(ctx, PROP, binary, cases, "all")
@@ -97,3 +101,6 @@ def run(ctx):
     for c, r in list(zip(cases, st["recs"]))[:3]:
         if r.get("traces"):
             ctx.sample({"chain": hc.impls(c), "mode": c["mode"], "trace": r["traces"][0][:4] + r["traces"][0][-1:]})
+    # the lead's extra coverage of dual_selector (spec/DualSelector.tla, harness/drv_dualsel)
+    import X_dualsel
+    X_dualsel.run_extra(ctx)
